@@ -35,6 +35,8 @@ Definition audited_mut : list (string * string * string * string) := [
   ("plsql.go", "*Query.addPostProcessors", "append", "query.postProcessors");
   ("plsql.go", "FunExpr", "index-assign", "query.singletonExecutions");
   ("plsql.go", "AggrFunExpr", "index-assign", "query.singletonExecutions");
+  (* shareSingletons copies one query's memo into the memo of its per-dimension copy *)
+  ("plsql.go", "shareSingletons", "index-assign", "dst");
   (* locals made with make() whose name is shadowed by a parameter / a comma-ok binding *)
   ("plsql.go", "AggrFuncArgReader", "append", "slice");
   ("plsql.go", "ExecGroupBy", "index-assign", "current");
